@@ -35,7 +35,7 @@ WEIGHTS = dict(ins=6, data=5, label=4, block=1.5, scope=1, macro=0.8, call=1.5, 
 
 
 def plan(tier: str, seed: int) -> list[dict]:
-    progs = 6 if tier == "quick" else 60
+    progs = 12 if tier == "quick" else 60
     subs = 48 if tier == "quick" else 500
     shards = []
     points = [(f, m, c, d) for f in ("ips", "sfc") for m in MAPPINGS for c in (False, True) for d in range(len(DEFINES))]
